@@ -211,6 +211,10 @@ class NormDomain(Domain):
             return None
         if dotted in ('numpy.pi', 'math.pi'):
             return None
+        if dotted.startswith('numpy.') and not kwargs and getattr(self, 'interp', None) is not None:
+            r_ = self.interp._generic_ext(dotted, args, kwargs, node) if dotted[6:] in self.interp._UFUNC_BINOP or dotted[6:] in ('square', 'negative', 'reciprocal') else None
+            if r_ is not None:
+                return r_           # np.multiply(a, b), np.square(a) ...: the operator they spell
         a0 = self.rat(args[0]) if args else None
         if dotted in ('numpy.sqrt', 'math.sqrt', 'numpy.emath.sqrt', 'numpy.lib.scimath.sqrt') and a0 is not None:
             return self.lift(_rat(R.sqrt(a0)))
